@@ -297,7 +297,7 @@ def gen_jobs(rng, quick, consume):
     o0 = {"tables": 0, "consume_input": consume, "limit": lim}
     ol = {"tables": 1, "consume_input": consume, "lexdis": True, "limit": lim}
     opts = [o1, o0]
-    jobs = glrcases.gen_jobs(rng, True, opts, nrand=(30 if quick else (450 if consume else 250)),
+    jobs = glrcases.gen_jobs(rng, True, opts, nrand=(30 if quick else (300 if consume else 100)),
                              maxlen=(4 if quick else 6), layout_variants=True)
     if quick:
         # keep the quick tier small: sample the inputs of every job
